@@ -212,3 +212,24 @@ func (m *omap) liveSlots() []int {
 	}
 	return r
 }
+
+// clone returns a shallow copy of m (maps.Clone).
+func (m *omap) clone() *omap {
+	if m == nil {
+		return nil
+	}
+	c := makeMap(m.keyType, 0).(*omap)
+	for _, s := range m.liveSlots() {
+		c.insert(m.keys[s], m.vals[s])
+	}
+	return c
+}
+
+func init() {
+	// maps.clone is implemented in the runtime (linkname)
+	externals["maps.clone"] = func(fr *frame, args []value) value {
+		it := args[0].(iface)
+		m, _ := it.v.(*omap)
+		return iface{t: it.t, v: m.clone()}
+	}
+}
